@@ -68,6 +68,16 @@ func corpus(g *g, emit func(hxlib.Case)) {
 	for _, s := range ss {
 		g.emitGS(emit, "corpus-gs", s)
 	}
+	// byte strings: Latin-1 text with a quote, a Windows path, 0xff next to a quote, overlong backslash, surrogate + space
+	for _, v := range []string{"caf\xe9 \"du nord\"", "C:\\caf\xe9", "\xff\"", "\xc1\x9c \xc0\xa2", "\xed\xa0\x80 x", "\xe4\xb8\\", "(\x80)", "a\tb\xc3"} {
+		g.emitRTB(emit, "corpus-rtb", &rtIn{prefix: "db:k", where: w('W', "S", 10, arg{t: 's', s: v})})
+		g.emitGS(emit, "corpus-gs-bytes", &sentence{gap: " ", prefix: word{'r', "db:k"}, where: &snode{kind: 'W', gap: " ", key: word{'r', "S"}, opname: "sameas", val: &word{'b', v}}})
+		g.emitGS(emit, "corpus-gs-bytes", &sentence{gap: " ", prefix: word{'r', "db:k"}, where: &snode{kind: 'W', gap: " ", key: word{'r', "S"}, opname: "sameas", val: &word{'q', v}}})
+	}
+	for _, v := range []string{"caf\xe9 \"du nord\"", "\xe4\xb8\\", "\xc1\x9c", "\xf0\x9f\x98\"", "\xed\xa0\x80", "\xf4\x90\x80\x80", "\xe0\x9f\xbf", "世\\😀", ""} {
+		g.emitBytesModel(emit, v)
+	}
+	g.emitRTB(emit, "corpus-rtb", &rtIn{prefix: "db:k\xe9 \"", orderby: "\xff\\", where: w('W', "\x80 \"", 17, arg{t: 'n'})})
 	for _, t := range []string{
 		`query test: where ( "bananas" > 100 and monkeys.# <= "12")or(coconuts < 10 "and" area > 50) or name sameas Julian or name matches ^King\ `,
 		`query test: where (bananas > 100 and monkeys.# <= 12) or not (coconuts < 10 and area not > 50) or name sameas Julian or name matches "^King " orderby name limit 10 offset 20`,
@@ -138,6 +148,32 @@ func generate(r *hxlib.Run, emit func(hxlib.Case)) {
 		}
 		g.emitParse(emit, "mutated", t)
 	}
+	// (d) byte strings (Go strings are byte strings): tokens that combine invalid UTF-8 with every escape-worthy
+	// character, through the API round trip and through grammar sentences — implementation only, full monitor
+	for i := 0; i < r.Budget(12000, 150000); i++ {
+		in := &rtIn{prefix: g.bprefix(), limit: g.limit(true), offset: g.limit(true), precheck: g.rng.Intn(8) == 0}
+		in.where = g.btree(g.rng.Intn(3))
+		if g.rng.Intn(3) == 0 {
+			in.orderby = g.pick([]string{g.bstr(), g.key(true)})
+		}
+		g.emitRTB(emit, "rtb", in)
+		if i%4 == 0 {
+			guarded(func() string {
+				q := in.build()
+				if _, err := q.Check(); err == nil {
+					keep(q.Print())
+				}
+				return ""
+			})
+		}
+	}
+	for i := 0; i < r.Budget(8000, 100000); i++ {
+		g.emitGS(emit, "gs-bytes", g.bsentence(g.rng.Intn(3)))
+	}
+	// (e) the byte-level model of tokenizer / escapeString / range against the real code on arbitrary byte strings
+	for i := 0; i < r.Budget(25000, 400000); i++ {
+		g.emitBytesModel(emit, g.anyBytes(prints))
+	}
 	// (c) raw strings
 	for i := 0; i < r.Budget(80000, 2000000); i++ {
 		if i%4 == 3 {
@@ -151,7 +187,7 @@ func generate(r *hxlib.Run, emit func(hxlib.Case)) {
 func main() {
 	hxlib.Main(&hxlib.Harness{
 		Prop:     "C11",
-		Rule:     "three generators, every choice seeded: (a) rt = a query tree built through the API (all 18 operators + invalid ones, and/or/not nesting to depth 4 quick / 6 thorough, widths 0–4, every operand class incl. int64 extremes, textual operands, strings over an alphabet with spaces, quotes, backslashes, parentheses, commas, multi-byte runes; any prefix/orderby/limit/offset) → Check → Print → ParseQuery → Print, with MatchesRecord on 3 harness records in JSON and struct form before and after; (b) gs = sentences of the README grammar (all operator aliases, quoted/escaped/plain words, whitespace variants, not-forms, groups ending the condition list), rendered independently and parsed; every query ParseQuery returns is itself printed and re-parsed; mutated sentences/prints (token drop/dup/swap, unbalanced quotes and parentheses, trailing backslash or multi-byte rune, keywords as keys, byte cuts); (c) raw strings incl. invalid UTF-8 (implementation only). A case is non-trivial if it is a checked query with a where clause (rt), a grammar sentence with a where clause (gs) or an input longer than 6 bytes (parse/lex); distinct by the hash of its op line.",
+		Rule:     "three generators, every choice seeded: (a) rt = a query tree built through the API (all 18 operators + invalid ones, and/or/not nesting to depth 4 quick / 6 thorough, widths 0–4, every operand class incl. int64 extremes, textual operands, strings over an alphabet with spaces, quotes, backslashes, parentheses, commas, multi-byte runes; any prefix/orderby/limit/offset) → Check → Print → ParseQuery → Print, with MatchesRecord on 3 harness records in JSON and struct form before and after; (b) gs = sentences of the README grammar (all operator aliases, quoted/escaped/plain words, whitespace variants, not-forms, groups ending the condition list), rendered independently and parsed; every query ParseQuery returns is itself printed and re-parsed; mutated sentences/prints (token drop/dup/swap, unbalanced quotes and parentheses, trailing backslash or multi-byte rune, keywords as keys, byte cuts); (c) raw strings incl. invalid UTF-8 (implementation only); (d) byte strings — Go strings are byte strings: tokens (keys, prefix, orderby, string and list operands) that combine byte sequences that are not valid UTF-8 (lone continuation bytes, truncated 2-/3-/4-byte sequences, FF/FE/F8, overlong forms incl. overlong backslash / quote / space, CESU-8 surrogates, beyond U+10FFFF, Latin-1) with every escape-worthy character (space, quote, backslash, parentheses, tab, CR, LF): rtb = the API round trip on the implementation under the full monitor (prints identically, byte-exact tokens, same match vector on witness records built from the operand bytes themselves, struct + raw-JSON form, plus the U+FFFD-replaced neighbours) and gs-bytes = grammar sentences with such words in all three word styles (tokens byte-exact); (e) the byte-level Lean model (utf8 decoding as `range` does it, extractSnippets, prepToken, escapeString on arbitrary bytes; no UTF-8 decoding in the driver) against the real code: units / escb / lexb on tokens, escaped tokens, mutated printed queries and decoder-class-directed random bytes. A case is non-trivial if it is a checked query with a where clause (rt), a grammar sentence with a where clause (gs) or an input longer than 6 bytes (parse/lex); distinct by the hash of its op line.",
 		Generate: generate,
 		NewExec:  func(r *hxlib.Run) hxlib.Exec { return exec{r} },
 		Monitor:  monitor,
